@@ -216,9 +216,15 @@ def transform_expression(
 
     # Extract the left part of the inequality
     symbolic_vars = {**symbols_to_use} if symbols_to_use else {}
-    for var in pddl_variables:
+    for var in sorted(pddl_variables):
         if var not in symbolic_vars:
-            symbolic_vars[var] = symbols(re.sub(r"[\(\-\)\s\?]", "", var))
+            symbol_name = re.sub(r"[\(\-\)\s\?]", "", var)
+            used_symbol_names = {str(symbol) for symbol in symbolic_vars.values()}
+            while symbol_name in used_symbol_names:
+                # different PDDL variables must not be mapped to the same symbol.
+                symbol_name += "_"
+
+            symbolic_vars[var] = symbols(symbol_name)
 
     formatted_expression = expression
     for var, sym in symbolic_vars.items():
